@@ -2090,7 +2090,9 @@ func (r *Runner) transferCapture(capnum, uncapnum, start, end int) {
 		end = start
 		start = end2
 	} else if end <= start2 {
-		start = start2
+		// the interval being cancelled lies to the right (right-to-left matching):
+		// the text between the two is [end, start2)
+		start, end = end, start2
 	} else {
 		if end > end2 {
 			end = end2
